@@ -6,10 +6,13 @@ import MM.Model.C22
   connection) and datagrams from several local senders.  Cases start with `reset`.
 
     reset <ctrl> <decl>       -> ok
-        ctrl: `p` (net.Pipe: no TCP peer address) | `t1`,`t2`,`t3` (TCP from 127.0.0.k)
+        ctrl: `p` (net.Pipe: no TCP peer address) | `t1`,`t2`,`t3` (TCP from 127.0.0.k) |
+              `s1` (TCP over IPv6 from ::1 to a listener on [::1]; every op of such a case may answer `skip no-ipv6`) |
+              `d1`,`d2` (TCP from 127.0.0.k to a dual-stack listener on [::]: the peer address is IPv4-mapped)
         decl: what the request declares — `u` 0.0.0.0:0 | `u6` [::]:0 | `d` a domain name |
               `<k>` sender k's address | `<k>x` sender k's IP with another port | `<k>z` sender k's IP with port 0 |
-              `m<k>` sender k's address in IPv4-mapped IPv6 form
+              `m<k>` sender k's address in IPv4-mapped IPv6 form |
+              `v6` [::1]:4000
     send <k> <v|i>            -> relayed | dropped      (v: valid SOCKS5 UDP header, i: invalid)
     reply                     -> to <k> | none          (where WriteToClient delivers)
     hold                      -> ok                     the mesh-side relay call stalls from now on
@@ -27,8 +30,13 @@ def sender (k : Nat) : Addr := ⟨senderIP k, 4000 + k⟩
 
 def mapped (ip : Bytes) : Bytes := [0,0,0,0,0,0,0,0,0,0,0xff,0xff] ++ ip
 
+def v6loop : Bytes := List.replicate 15 0 ++ [1]
+
 def parseCtrl (s : String) : Option (Option Bytes) :=
   if s = "p" then some none
+  else if s = "s1" then some (some v6loop)
+  else if s = "d1" then some (some (senderIP 1))
+  else if s = "d2" then some (some (senderIP 2))
   else match s.toList with
     | ['t', c] => if '1' ≤ c ∧ c ≤ '3' then some (some (senderIP (c.toNat - 48))) else none
     | _ => none
@@ -38,6 +46,7 @@ def parseDecl (s : String) : Option (Option Bytes × Nat) :=
   if s = "u" then some (some [0, 0, 0, 0], 0)
   else if s = "u6" then some (some (List.replicate 16 0), 0)
   else if s = "d" then some (none, 53)
+  else if s = "v6" then some (some v6loop, 4000)
   else match s.toList with
     | [c] => if '1' ≤ c ∧ c ≤ '4' then let k := c.toNat - 48; some (some (senderIP k), 4000 + k) else none
     | [c, 'x'] => if '1' ≤ c ∧ c ≤ '4' then some (some (senderIP (c.toNat - 48)), 9) else none
@@ -57,12 +66,14 @@ structure ESt where
   seq : Nat := 0
   held : Bool := false
   pending : List (Nat × Bool × Nat) := []
+  /-- the case needs an IPv6 loopback: where there is none the harness answers `skip no-ipv6` -/
+  maySkip : Bool := false
 
-def step (e : ESt) (line : String) : ESt × String :=
+def stepCore (e : ESt) (line : String) : ESt × String :=
   match tokens line with
   | ["reset", c, d] =>
     match parseCtrl c, parseDecl d with
-    | some ctrl, some (ip, port) => ({ st := initSt ctrl ip port }, "ok")
+    | some ctrl, some (ip, port) => ({ st := initSt ctrl ip port, maySkip := c = "s1" }, "ok")
     | _, _ => (e, "bad-op")
   | ["send", k, v] =>
     match parseSender k with
@@ -86,6 +97,10 @@ def step (e : ESt) (line : String) : ESt × String :=
     ({ e with st := st', held := false, pending := [] },
       "relayed " ++ (if out.isEmpty then "-" else ",".intercalate out))
   | _ => (e, "bad-op")
+
+def step (e : ESt) (line : String) : ESt × String :=
+  let r := stepCore e line
+  if r.1.maySkip then (r.1, s!"anyof {r.2} | skip no-ipv6") else r
 
 /-! ### spec: C22 on the implementation's own answers.  The owner is computed from the `reset`
     line alone (control peer, else declared address); with neither, the harness's client is
@@ -128,6 +143,7 @@ def specStep (s : SpecSt) (l : String) : SpecSt × String :=
     let out := out0.trimAscii.toString
     if out.startsWith "panic" || out.startsWith "crash" then (s, "fail crashed")
     else if out.startsWith "timeout" then (s, "fail harness-timeout")
+    else if out.startsWith "skip" then (s, "ok")
     else match tokens op with
     | ["hold"] => ({ s with held := true, pending := [] }, "ok")
     | ["release"] =>
